@@ -35,11 +35,12 @@ structure Served (g : ClassGeom) (T : Tables) (name : String) : Prop where
   qubit_ok : ∀ rot, ∀ q ∈ g.lat.qubits, ∃ d, g.qubitRepr T rot q = .ok d ∧ descComplete d = true ∧
     getKey d "location" = some (g.qubitLocation rot q)
   stab_ok : ∀ rot, ∀ s ∈ g.lat.stabs, ∃ d, g.stabRepr T rot s = .ok d ∧ descComplete d = true ∧
-    getKey d "location" = some (g.stabLocation rot s)
+    getKey d "location" = some (g.stabLocation rot s) ∧ getKey d "type" = (g.stabType s).map JV.str
   deformation : name = "None" ∨ ∀ q ∈ g.lat.qubits, (g.deformation name q).isSome = true
 
 /-- C20 for one answer: one complete description per qubit and per stabilizer, the i-th one computed
-    from (and located at) the i-th library coordinate, and the matrices of the generic assembly -/
+    from (and located at) the i-th library coordinate — a stabilizer's with the `type` of that
+    coordinate —, and the matrices of the generic assembly -/
 structure Faithful (g : ClassGeom) (T : Tables) (name : String) (rot : Bool) (p : Payload) : Prop where
   n_qubits : p.qubits.length = g.lat.qubits.length
   n_stabs : p.stabilizers.length = g.lat.stabs.length
@@ -48,7 +49,8 @@ structure Faithful (g : ClassGeom) (T : Tables) (name : String) (rot : Bool) (p 
     getKey p.qubits[i] "location" = some (g.qubitLocation rot g.lat.qubits[i])
   stab_at : ∀ i (h : i < g.lat.stabs.length) (h' : i < p.stabilizers.length),
     g.stabRepr T rot g.lat.stabs[i] = .ok p.stabilizers[i] ∧ descComplete p.stabilizers[i] = true ∧
-    getKey p.stabilizers[i] "location" = some (g.stabLocation rot g.lat.stabs[i])
+    getKey p.stabilizers[i] "location" = some (g.stabLocation rot g.lat.stabs[i]) ∧
+    getKey p.stabilizers[i] "type" = (g.stabType g.lat.stabs[i]).map JV.str
   undeformed : name = "None" → p.H = g.lat.rowsH ∧ p.logicalX = g.lat.rowsX ∧ p.logicalZ = g.lat.rowsZ
   deformed : name ≠ "None" →
     p.H = g.lat.rowsH.map (deformBsf (g.lat.qubits.map (g.dmap name))) ∧
@@ -82,7 +84,7 @@ theorem Servable.qubit_ok (hs : Servable g T types name) (rot : Bool) {q : Coord
   obtain ⟨a, ha⟩ := hs.qubit_axes q hq
   obtain ⟨⟨e, hl, he⟩, _⟩ := classTablesOk_unpack hs.tables rot
   obtain ⟨d, hd, hg, hloc, _⟩ := baseQubit_ok T g.cls rot a q e hl he
-  obtain ⟨d', h1, h2, h3⟩ := applyEdits_ok (g.qubitEdits rot q a) d _ hg hloc (hs.qubit_edits rot q a)
+  obtain ⟨d', h1, h2, h3, _⟩ := applyEdits_ok (g.qubitEdits rot q a) d _ hg hloc (hs.qubit_edits rot q a)
   refine ⟨d', ?_, h2.complete, ?_⟩
   · unfold ClassGeom.qubitRepr
     rw [ha, hd]; exact h1
@@ -91,17 +93,18 @@ theorem Servable.qubit_ok (hs : Servable g T types name) (rot : Bool) {q : Coord
 
 theorem Servable.stab_ok (hs : Servable g T types name) (rot : Bool) {s : Coord} (hq : s ∈ g.lat.stabs) :
     ∃ d, g.stabRepr T rot s = .ok d ∧ descComplete d = true ∧
-      getKey d "location" = some (g.stabLocation rot s) := by
+      getKey d "location" = some (g.stabLocation rot s) ∧ getKey d "type" = (g.stabType s).map JV.str := by
   obtain ⟨t, ht, hty⟩ := hs.stab_types s hq
   obtain ⟨_, hall⟩ := classTablesOk_unpack hs.tables rot
   obtain ⟨e, hl, he⟩ := hall t ht
-  obtain ⟨d, hd, hg, hloc, _⟩ := baseStab_ok T g.cls rot t s e hl he
-  obtain ⟨d', h1, h2, h3⟩ := applyEdits_ok (g.stabEdits rot s t) d _ hg hloc (hs.stab_edits rot s t)
-  refine ⟨d', ?_, h2.complete, ?_⟩
+  obtain ⟨d, hd, hg, hloc, htyp, _⟩ := baseStab_ok T g.cls rot t s e hl he
+  obtain ⟨d', h1, h2, h3, h4⟩ := applyEdits_ok (g.stabEdits rot s t) d _ hg hloc (hs.stab_edits rot s t)
+  refine ⟨d', ?_, h2.complete, ?_, ?_⟩
   · unfold ClassGeom.stabRepr
     simp only [hty, hd]; exact h1
   · unfold ClassGeom.stabLocation
     rw [hty]; exact h3
+  · rw [h4, htyp, hty]; rfl
 
 theorem opKeys_sub (hwf : g.lat.WF) {q : Coord} (hq : q ∈ g.opKeys) : q ∈ g.lat.qubits := by
   unfold ClassGeom.opKeys at hq
@@ -174,11 +177,11 @@ theorem Served.faithful (hs : Served g T name) (rot : Bool) :
     cases this
     exact ⟨hd, hc, hl⟩
   · intro i hi hi'
-    obtain ⟨d, hd, hc, hl⟩ := hs.stab_ok rot _ (List.getElem_mem hi)
+    obtain ⟨d, hd, hc, hl, ht⟩ := hs.stab_ok rot _ (List.getElem_mem hi)
     have := hs3 i hi hi'
     rw [hd] at this
     cases this
-    exact ⟨hd, hc, hl⟩
+    exact ⟨hd, hc, hl, ht⟩
 
 /-- **Every servable class is served faithfully.** -/
 theorem describeAll_faithful (hs : Servable g T types name) (rot : Bool) :
